@@ -23,6 +23,10 @@ def run(rep, prog, tier):
     r3(rep, prog)
     r4(rep, prog)
     r6(rep, prog)
+    rep.rule("C20-R7", "what is validated is what is managed (shared with C10-R7): Index::validate_checksum covers the committed files that are in the managed list, so a file may leave that list only by being deleted — garbage_collect prunes the current list by exactly the files it deleted (no snapshot written back, no retain over the living set)")
+    from ..report import Retag
+    from .c10 import r7 as gc_bookkeeping
+    gc_bookkeeping(Retag(rep, "C20-R7"), prog)
 
 
 def r6(rep, prog):
